@@ -9,5 +9,7 @@ int main(int argc, char** argv)
   FEAT::Runtime::ScopeGuard guard(argc, argv);
   std::vector<Target> tg;
   tg.push_back({"misc", [](Tape& t, Ctx& c) { target<G_MISC, double, LocalBE>(t, c, {K_RICH, K_RGCR, K_IDRS}, {3, 2, 3}, maxn()); }, 96, 2, 60000});
+  // thorough tier: same decoder, systems up to n = 120
+  tg.push_back({"misc_big", [](Tape& t, Ctx& c) { target<G_MISC, double, LocalBE>(t, c, {K_RICH, K_RGCR, K_IDRS}, {3, 2, 3}, 120); }, 96, 3, 120000});
   return main_impl(argc, argv, tg);
 }
